@@ -27,19 +27,43 @@ Record mstate := mkSt {
   cur : obj                                     (* the variable `value` (returned at the end) *)
 }.
 
+(* a visit callback as the machine meets it: it may also raise (None) *)
+Definition mvisit_fn := path -> key -> val -> option action.
+Definition lift (v : option visit_fn) : option mvisit_fn :=
+  match v with Some f => Some (fun p k x => Some (f p k x)) | None => None end.
+Definition VisitError : exn := OtherExn 7.
+
 Section Machine.
-  Variable visit : option visit_fn.             (* None: visit is _orig_default_visit (inlined) *)
+  Variable visit : option mvisit_fn.            (* None: visit is _orig_default_visit (inlined) *)
+  Variable reraise : bool.                      (* the reraise_visit keyword *)
   Variable defs : table obj.
+
+  (* try: visited_item = visit(path, key, value)
+     except Exception: if reraise_visit: raise; visited_item = True *)
+  Definition call_visit (p : path) (ky : key) (v : obj) (lg : list event)
+    : (option (key * obj) * list event) + list event :=
+    match visit with
+    | None => inl (Some (ky, v), lg)
+    | Some f =>
+        let lg' := lg ++ [EVisit p ky (erase v)] in
+        match f p ky (erase v) with
+        | Some a => inl (apply_action OLeaf a ky v, lg')
+        | None => if reraise then inr lg' else inl (Some (ky, v), lg')
+        end
+    end.
 
   (* the tail of the loop body: visit, then append to the current new_items *)
   Definition visit_phase (st : mstate) (ky : key) (v : obj) : mstate + outcome :=
-    let '(it, lg') := do_visit visit (pth st) ky v (lg st) in
-    match it with
-    | None => inl (mkSt (stk st) (reg st) (nis st) (pth st) lg' v)              (* continue  # drop *)
-    | Some item =>
-        match nis st with
-        | [] => inr (Fail TypeError lg')                                             (* expected remappable root *)
-        | (p0, acc) :: r => inl (mkSt (stk st) (reg st) ((p0, acc ++ [item]) :: r) (pth st) lg' v)
+    match call_visit (pth st) ky v (lg st) with
+    | inr lg' => inr (Fail VisitError lg')                                       (* the exception propagates *)
+    | inl (it, lg') =>
+        match it with
+        | None => inl (mkSt (stk st) (reg st) (nis st) (pth st) lg' v)          (* continue  # drop *)
+        | Some item =>
+            match nis st with
+            | [] => inr (Fail TypeError lg')                                      (* expected remappable root *)
+            | (p0, acc) :: r => inl (mkSt (stk st) (reg st) ((p0, acc ++ [item]) :: r) (pth st) lg' v)
+            end
         end
     end.
 
@@ -95,7 +119,7 @@ End Machine.
 (* research(root, query): remap with the default visit and an enter wrapper
    that records (path + (key,), value) when query(path, key, value) is true *)
 Definition research (q : query_fn) (root : obj) : res (list (path * oref)) :=
-  match remap None (collect_defs root) root with
+  match remap None true (collect_defs root) root with
   | Done _ _ lg => Ok (reported q lg)
   | Fail e _ => Raise e
   | OutOfFuel => Raise (OtherExn 2)
